@@ -344,6 +344,24 @@ theorem top_absorbs (inp : Inp) (b : Block) (a : List Block) (hT : HasTargets in
   rw [total_height xs x h1, ht]
   simp at h2; rw [h2]
 
+/-- **the top (dummy) block keeps a positive height as long as the grown blocks below it do not fill the
+assembly**: `Σ (new heights below the top) < assembly height` is the property's "Σ growth < dummy height". -/
+theorem top_height_positive (inp : Inp) (b : Block) (a : List Block) (hT : HasTargets inp (b :: a))
+    (hsum : (((expandFrom inp none 0 (b :: a)).dropLast).map (·.h)).sum < (topZ (b :: a)).getD 0 - b.zb) :
+    ∀ t, (expandFrom inp none 0 (b :: a)).getLast? = some t → 0 < t.h := by
+  intro t ht
+  have habs := top_absorbs inp b a hT
+  obtain ⟨x, xs, hx⟩ := expandFrom_cons inp none 0 b a
+  rw [hx] at ht hsum habs
+  have hne : (x :: xs) ≠ [] := by simp
+  have hl : (x :: xs).getLast hne = t := by
+    rw [List.getLast?_eq_some_getLast hne] at ht; exact Option.some.inj ht
+  have hsplit := List.dropLast_append_getLast hne
+  rw [hl] at hsplit
+  rw [← hsplit, List.map_append, List.sum_append] at habs
+  simp only [List.map_cons, List.map_nil, List.sum_cons, List.sum_nil, add_zero] at habs
+  linarith
+
 /-- witness for the excluded case (known finding F9): three blocks, the target of block 1 (component 1)
 is stacked on component 1 of block 0 whose target is component 0 — its mass changes from 20 to 380/21. -/
 def f9Inp : Inp where
